@@ -305,6 +305,94 @@ def gen_chain(rng, payload=None, cap="rand", side=None):
     return {"cap": capv, "payload": pl, "procs": procs, "strat": {"tick_phase": cancel_ph, "q_tick": 0.0}}
 
 
+def seq_alphabet():
+    """Single-thread call alphabet for C18: each item is a short list of harness ops standing for one API call
+    (a future is created and polled once in one item). Handle 0 is a sender, handle 1 a receiver."""
+    A = []
+    for o in ("send", "try_send", "try_send_option", "try_send_realtime", "try_send_option_realtime"):
+        A.append([{"op": o, "h": 0, "m": 0}])
+    A.append([{"op": "send_timeout", "h": 0, "m": 0, "d": 0}])
+    A.append([{"op": "send_option_timeout", "h": 0, "m": 0, "d": 0}])
+    A.append([{"op": "asend_new", "h": 0, "f": 0, "m": 0}, {"op": "poll", "f": 0, "w": 1}])
+    for o in ("recv", "try_recv", "try_recv_realtime", "iter_next"):
+        A.append([{"op": o, "h": 1}])
+    A.append([{"op": "recv_timeout", "h": 1, "d": 0}])
+    A.append([{"op": "drain_into", "h": 1, "pre": 0, "spare": 0}])
+    A.append([{"op": "drain_into", "h": 1, "pre": 1, "spare": 0}])
+    A.append([{"op": "drain_into", "h": 1, "pre": 0, "spare": 4}])
+    A.append([{"op": "arecv_new", "h": 1, "f": 1}, {"op": "poll", "f": 1, "w": 1}])
+    A.append([{"op": "stream_new", "h": 1, "f": 2}, {"op": "poll", "f": 2, "w": 1}])
+    for f in (0, 1, 2):
+        A.append([{"op": "poll", "f": f, "w": 2}])
+        A.append([{"op": "drop_fut", "f": f}])
+    A.append([{"op": "stream_is_terminated", "f": 2}])
+    for h in (0, 1):
+        for o in ("clone", "clone_sync", "clone_async", "to_sync", "to_async", "drop", "close"):
+            A.append([{"op": o, "h": h}])
+        for o in OBS:
+            A.append([{"op": o, "h": h}])
+    A.append([{"op": "is_terminated", "h": 1}])
+    return A
+
+
+def seq_program(items, cap, flav, payload="w1"):
+    ops = []
+    m = 0
+    for it in items:
+        for o in it:
+            o = dict(o)
+            if "m" in o:
+                m += 1
+                o["m"] = m
+            ops.append(o)
+    return {"cap": cap, "payload": payload, "execs": 1,
+            "procs": [{"phase": 0, "handles": [flav[0] + "s", flav[1] + "r"], "ops": ops}]}
+
+
+def gen_seq_exhaustive(length, caps, flavs=("ss",), payload="w1"):
+    import itertools
+    A = seq_alphabet()
+    for cap in caps:
+        for flav in flavs:
+            for combo in itertools.product(range(len(A)), repeat=length):
+                yield seq_program([A[i] for i in combo], cap, flav, payload)
+
+
+def gen_seq_random(rng, n, lengths=(4, 5, 6, 8)):
+    A = seq_alphabet()
+    for _ in range(n):
+        k = rng.choice(lengths)
+        yield seq_program([rng.choice(A) for _ in range(k)], rng.choice([0, 1, 2, None]),
+                          rng.choice(["ss", "aa", "sa", "as"]), rng.choice(["w1", "b3", "h4", "p5", "u8", "z0"]))
+
+
+HANDLE_MUT = ["clone", "clone_sync", "clone_async", "to_sync", "to_async", "drop", "drop_old"]
+
+
+def handle_seq_programs(length, flavs=("ss", "aa", "sa", "as"), caps=(1,), prefill=(0, 1)):
+    """All sequences of `length` handle-changing calls (clone / clone_sync / clone_async / to_* / drop of the newest or
+    oldest handle, on either side, plus close), each followed by an observing suffix on whatever handles are left."""
+    import itertools
+    muts = [(o, sd) for o in HANDLE_MUT for sd in "sr"] + [("close", "s"), ("close", "r")]
+    for cap in caps:
+        for flav in flavs:
+            for pre in prefill:
+                for combo in itertools.product(muts, repeat=length):
+                    ops = [{"op": "try_send", "hs": "s", "m": i + 1} for i in range(pre)]
+                    for o, sd in combo:
+                        if o == "drop_old":
+                            ops.append({"op": "drop", "hso": sd})
+                        else:
+                            ops.append({"op": o, "hs": sd})
+                    for sd in "sr":
+                        for o in ("sender_count", "receiver_count", "is_closed", "is_disconnected"):
+                            ops.append({"op": o, "hs": sd})
+                    ops += [{"op": "is_terminated", "hs": "r"}, {"op": "try_recv", "hs": "r"}, {"op": "try_recv", "hso": "r"},
+                            {"op": "try_send", "hs": "s", "m": 9}, {"op": "try_recv", "hs": "r"}]
+                    yield {"cap": cap, "payload": "w1", "execs": 1,
+                           "procs": [{"phase": 0, "handles": [flav[0] + "s", flav[1] + "r"], "ops": ops}]}
+
+
 def main():
     import argparse
     ap = argparse.ArgumentParser()
